@@ -1,6 +1,7 @@
 package main
 
 import (
+	"path"
 	"encoding/json"
 	"fmt"
 	"sort"
@@ -47,6 +48,8 @@ func c18Alphabet() []Action {
 		cmdOn(0, "SUBSCRIBE", "c1", "c2"), cmdOn(1, "SUBSCRIBE", "c3", "c3"), cmdOn(2, "PSUBSCRIBE", "c3*", "c3*"), cmdOn(0, "PUBLISH", "c3", "m5"),
 		cmdOn(2, "PUBLISH", "c1", "m1"), emb("PUBLISH", "c2", "m2"), cmdOn(0, "PUBLISH", "d", "m3"), cmdOn(1, "PUBLISH", "c1", "m4"),
 		cmdOn(2, "PUBSUB", "CHANNELS"), cmdOn(2, "PUBSUB", "NUMSUB", "c1", "c2", "d"), cmdOn(2, "PUBSUB", "NUMPAT"), cmdOn(2, "PUBSUB", "CHANNELS", "c*"),
+		// a pattern that does not match its own text, and a channel literally named like it
+		cmdOn(1, "PSUBSCRIBE", "c[12]"), cmdOn(2, "PUBLISH", "c[12]", "m6"),
 	}
 }
 
@@ -64,6 +67,10 @@ func newC18Table() *c18Table {
 }
 
 func globMatch(p, s string) bool {
+	if strings.ContainsAny(p, "[?") {
+		ok, err := path.Match(p, s)
+		return err == nil && ok
+	}
 	if strings.HasSuffix(p, "*") {
 		return strings.HasPrefix(s, p[:len(p)-1])
 	}
